@@ -29,6 +29,13 @@ type Solver struct {
 	maxQ     time.Duration
 	log      io.Writer
 	inModel  bool
+	ctx      string
+	fb       *Solver // non-incremental fallback process (lazily started)
+	isFB     bool
+	useFB    bool // current model state lives in the fallback
+	bin      string
+	tmo      int
+	fbCalls  int
 	dump     *os.File // verdict queries for cross-solver diff
 }
 
@@ -46,18 +53,24 @@ func NewSolver(bin string, timeoutMs int) *Solver {
 	if err := cmd.Start(); err != nil {
 		panic(err)
 	}
-	s := &Solver{cmd: cmd, inRaw: in, in: bufio.NewWriterSize(in, 1<<16), out: bufio.NewReaderSize(out, 1<<16), defined: map[int]int{}, declared: map[string]int{}}
+	s := &Solver{bin: bin, tmo: timeoutMs, cmd: cmd, inRaw: in, in: bufio.NewWriterSize(in, 1<<16), out: bufio.NewReaderSize(out, 1<<16), defined: map[int]int{}, declared: map[string]int{}}
 	if p := os.Getenv("SYMGO_SMTLOG"); p != "" {
 		f, _ := os.Create(p)
 		s.log = f
 	}
 	s.send("(set-option :print-success false)")
+	if !strings.Contains(bin, "cvc5") {
+		s.send("(set-option :timeout 2500)")
+	}
 	if strings.Contains(bin, "cvc5") {
 		s.send("(set-logic ALL)")
 	}
 	return s
 }
 func (s *Solver) Close() {
+	if s.fb != nil {
+		s.fb.Close()
+	}
 	s.send("(exit)")
 	s.in.Flush()
 	s.inRaw.Close()
@@ -142,8 +155,15 @@ func (s *Solver) Check(pc []*Term, extra *Term) string {
 	s.Sync(pc)
 	s.push()
 	s.assert(extra)
+	t0 := time.Now()
 	r := s.checkSat()
 	s.pop()
+	if r == "unknown" {
+		r = s.fallback(pc, extra)
+	}
+	if d := os.Getenv("SYMGO_DUMP_SLOW"); d != "" && time.Since(t0) > 3*time.Second {
+		os.WriteFile(fmt.Sprintf("%s/q%d-%s.smt2", d, s.queries, r), []byte(Standalone(pc, extra)), 0o644)
+	}
 	return r
 }
 func (s *Solver) checkSat() string {
@@ -156,6 +176,9 @@ func (s *Solver) checkSat() string {
 		s.maxQ = d
 	}
 	s.queries++
+	if d > 3*time.Second {
+		fmt.Fprintf(os.Stderr, "slow query #%d: %.1fs -> %s (%s)\n", s.queries, d.Seconds(), line, s.ctx)
+	}
 	switch line {
 	case "sat":
 		s.nsat++
@@ -220,7 +243,15 @@ func (s *Solver) ModelBegin(pc []*Term, extra *Term, ts []*Term) ([]string, bool
 		s.define(t)
 	}
 	s.assert(extra)
-	if s.checkSat() != "sat" {
+	r := s.checkSat()
+	if r == "unknown" {
+		if s.fallback(pc, extra) == "sat" {
+			s.useFB = true
+			return s.fb.getValues(ts), true
+		}
+		return nil, false
+	}
+	if r != "sat" {
 		return nil, false
 	}
 	return s.getValues(ts), true
@@ -229,8 +260,14 @@ func (s *Solver) ModelBegin(pc []*Term, extra *Term, ts []*Term) ([]string, bool
 // ModelMore evaluates more terms in the current model. Terms may need new
 // definitions; z3 keeps the model across define-fun (macros), so this works
 // as long as no new declarations are involved.
-func (s *Solver) ModelMore(ts []*Term) []string { return s.getValues(ts) }
+func (s *Solver) ModelMore(ts []*Term) []string {
+	if s.useFB {
+		return s.fb.getValues(ts)
+	}
+	return s.getValues(ts)
+}
 func (s *Solver) ModelEnd() {
+	s.useFB = false
 	if s.inModel {
 		s.pop()
 		s.inModel = false
@@ -345,4 +382,85 @@ func termString(t *Term, depth int) string {
 		return "(" + as[0] + ")[" + t.name + "]"
 	}
 	return "(" + t.op + " " + strings.Join(as, " ") + ")"
+}
+
+// Standalone renders pc ∧ extra as a self-contained SMT-LIB2 script.
+func Standalone(pc []*Term, extra *Term) string {
+	var sb strings.Builder
+	seen := map[int]bool{}
+	decl := map[string]bool{}
+	var def func(t *Term)
+	def = func(t *Term) {
+		switch t.op {
+		case "true", "false", "const":
+			return
+		case "var":
+			if !decl[t.name] {
+				decl[t.name] = true
+				fmt.Fprintf(&sb, "(declare-const %s %s)\n", smtName(t.name), sortStr(t.w))
+			}
+			return
+		}
+		if seen[t.id] {
+			return
+		}
+		seen[t.id] = true
+		for _, a := range t.args {
+			def(a)
+		}
+		if t.op == "app" && !decl[t.name] {
+			decl[t.name] = true
+			fmt.Fprintf(&sb, "(declare-fun %s (%s) %s)\n", smtName(t.name), sortStr(t.args[0].w), sortStr(t.w))
+		}
+		fmt.Fprintf(&sb, "(define-fun t%d () %s %s)\n", t.id, sortStr(t.w), t.def())
+	}
+	for _, c := range append(append([]*Term{}, pc...), extra) {
+		def(c)
+		fmt.Fprintf(&sb, "(assert %s)\n", c.ref())
+	}
+	sb.WriteString("(check-sat)\n")
+	return sb.String()
+}
+
+// fallback decides pc ∧ extra in a second, non-incremental solver process:
+// without push/pop z3 applies its preprocessing + bit-blasting tactic, which
+// decides many queries in under a second that the incremental core cannot
+// decide within its time limit.
+func (s *Solver) fallback(pc []*Term, extra *Term) string {
+	if s.isFB {
+		return "unknown"
+	}
+	if s.fb == nil {
+		s.fb = NewSolver(s.bin, s.tmo)
+		s.fb.isFB = true
+		s.fb.send(fmt.Sprintf("(set-option :timeout %d)", s.tmo))
+	}
+	f := s.fb
+	f.send("(reset)")
+	f.send("(set-option :print-success false)")
+	f.defined, f.declared = map[int]int{}, map[string]int{}
+	for _, c := range pc {
+		f.assert(c)
+	}
+	f.assert(extra)
+	s.fbCalls++
+	s.nunk-- // the incremental "unknown" is superseded by the fallback's answer
+	f.ctx = s.ctx + " [fallback]"
+	r := f.checkSat()
+	s.dur += f.dur
+	f.dur = 0
+	switch r {
+	case "sat":
+		s.nsat++
+	case "unsat":
+		s.nunsat++
+	default:
+		s.nunk++
+	}
+	if f.maxQ > s.maxQ {
+		s.maxQ = f.maxQ
+	}
+	s.nerr += f.nerr
+	f.nerr = 0
+	return r
 }
